@@ -159,6 +159,9 @@ def _node_worker(arg):
     as relays (in_response_to = 0) and as answers to a request (bulk-download path); after every arrival the node's chain
     state is compared with the reference fork choice"""
     hists, in_response_to = arg
+    noise = in_response_to == 'noise'       # relays, and after every arrival a relayed block that fails full validation
+    if noise:
+        in_response_to = 0
     from .. import seams, simnet
     from skepticoin.coinstate import CoinState
     from skepticoin.networking.messages import DataMessage, DATA_BLOCK
@@ -187,6 +190,17 @@ def _node_worker(arg):
             nd = uni.get(p)
             D.send(DataMessage(DATA_BLOCK, world.from_wire(nd.block)), in_response_to=in_response_to)
             D.received()
+            if noise:
+                # a block on the node's head that passes the stand-alone checks and over-claims its reward by one unit
+                hd = [m for m in fc.order + [nd] if m.bid == node.cm.coinstate.current_chain_hash]
+                if hd:
+                    try:
+                        junk = world.assemble(hd[0], [], K[5], hd[0].ts + 77, cb_outs=[(refmodel.subsidy(hd[0].height + 1) + 1, K[5])],
+                                              cb_data=b'junk %d' % i)
+                        D.send(DataMessage(DATA_BLOCK, world.from_wire(junk)))
+                        D.received()
+                    except Exception:
+                        pass
             n += 1
             cs = node.cm.coinstate
             fc.add(nd)
@@ -200,14 +214,17 @@ def _node_worker(arg):
                     out.append(('head', "head has height %d, the first-seen arrival of greatest total work is %s (height %d); the node "
                                 "did not keep a valid block delivered %s" % (
                                     cs.head().height, '/'.join(map(str, fc.head().path)), fc.head().height,
-                                    'as a relay' if not in_response_to else 'as the answer to a request'),
-                                hist[:i + 1], in_response_to))
+                                    ('as a relay' if not in_response_to else 'as the answer to a request') +
+                                    (' (every arrival is followed by a relayed block that fails full validation)' if noise else '')),
+                                hist[:i + 1], 'noise' if noise else in_response_to))
                     break
                 continue
             d = compare(cs, fc, {m.bid: m for m in fc.order})
             if d:
-                out.append((d[0], d[1] + (" (node level, blocks delivered %s)" % (
-                    'as relays' if not in_response_to else 'as answers to a request')), hist[:i + 1], in_response_to))
+                out.append((d[0], d[1] + (" (node level, blocks delivered %s%s)" % (
+                    'as relays' if not in_response_to else 'as answers to a request',
+                    ', each followed by a relayed block that fails full validation' if noise else '')), hist[:i + 1],
+                    'noise' if noise else in_response_to))
                 break
         if net.escaped:
             out.append(('node-exception', "node handler: %s" % (net.escaped[0],), hist, in_response_to))
@@ -254,7 +271,7 @@ def run(ctx):
         if bad:
             res.append(({}, [bad]))
     nh = prefixes(uni, 5)
-    nres = ctx.pmap(_node_worker, [(nh[i::8], irt) for irt in (0, 77) for i in range(8)])
+    nres = ctx.pmap(_node_worker, [(nh[i::8], irt) for irt in (0, 77, 'noise') for i in range(8)])
     tot['node_level_arrivals'] = sum(r[0] for r in nres)
     for cnt, bad in nres:
         for b_ in bad:
@@ -288,7 +305,7 @@ def run(ctx):
         'rule': "all n! parent-choice sequences (no de-duplication; prefixes shared); every arrival is one lock-step "
                 "comparison implementation vs reference fork choice; plus %d histories of one %d-block chain with a stale tip / "
                 "2-block branch left behind at height 1, 2 or 5 (arriving first, early or late), both entry points; and all 120 sequences "
-                "of 5 blocks delivered by a peer to a real node, as relays and as answers to a request" % (len(lh), N),
+                "of 5 blocks delivered by a peer to a real node, as relays, as answers to a request, and as relays each followed by a block that fails full validation" % (len(lh), N),
     })
     seams_note = "third job family: retarget period rebound to 2 so that targets differ between competing branches"
     ctx.assumptions.append(seams_note)
